@@ -136,6 +136,21 @@ def check_case(ctx: Ctx, em):
     if any(abs(a - b) > 1e-12 * max(1, abs(b)) for a, b in zip(gq + gp, q1 + p1)):
         ctx.violation(f"C16:integrator:end-point:{'dense' if not diagW else 'diag'}-mass", f"{tag}: (q', p') = {gq}, {gp}; the exact leapfrog map gives {q1}, {p1}", {"case": c})
         return
+    # an integrator whose step size was re-assigned after construction (what every step-size adaptor does) is the same map
+    dic2, joint2, params2 = gaussian_joint(A)
+    set_q(params2, q0)
+    integ2 = LeapfrogIntegrator("lf2", L, 2.0 * eps)
+    integ2.step_size = eps
+    try:
+        pm2 = integ2(joint2, params2, torch.tensor(p0), Wt)
+        gq2, gp2 = get_q(params2), [float(v) for v in pm2.tolist()]
+        if any(abs(a - b) > 1e-12 * max(1, abs(b)) for a, b in zip(gq2 + gp2, q1 + p1)):
+            ctx.violation("C16:integrator:end-point:after-step-size-change", f"{tag}: an integrator built with step size {2 * eps} and then set to {eps} gives "
+                          f"({gq2}, {gp2}); the exact leapfrog map gives ({q1}, {p1})", {"case": c})
+            return
+    except Exception as e:
+        ctx.violation("C16:integrator:raises", f"{type(e).__name__}: {e}; case {key} (step size re-assigned)", {"case": c})
+        return
     # reversibility on the same Parameter objects: negate the momentum, integrate again
     try:
         pb = integ(joint, params, -pm.detach(), Wt)
@@ -316,6 +331,42 @@ def check_operator(ctx: Ctx, rnd, tier):
                     break
                 (op.accept if rnd.random() < 0.6 else op.reject)()
             ctx.add("operator_steps_with_retry", nfail)
+            # a restored operator: the state (with this mass matrix) is written as JSON and loaded into an operator built with a unit
+            # mass matrix; the Hastings term of its next step must be K0 - K1 under the RESTORED mass matrix
+            try:
+                from torchtree.core.parameter_encoder import ParameterEncoder
+                object.__setattr__(op, "_integrator", real_integ)
+                state = json.loads(json.dumps(op.state_dict(), cls=ParameterEncoder))
+                dic2, joint2, params2 = build_target(t)
+                set_q(params2, get_q(params))
+                unit = torch.eye(d) if dense else torch.ones(d)
+                op2 = HMCOperator("op", joint2, params2, LeapfrogIntegrator("lf", L, eps), Parameter("mass", unit))
+                op2.load_state_dict(state)
+                rec2 = {}
+                real2 = op2._integrator
+
+                class Px2:
+                    step_size = real2.step_size
+
+                    def __call__(self, model, parameters, momentum, inv):
+                        rec2["p0"] = momentum.detach().clone()
+                        out = real2(model, parameters, momentum, inv)
+                        rec2["p1"] = out.detach().clone()
+                        return out
+                object.__setattr__(op2, "_integrator", Px2())
+                import contextlib, io
+                with contextlib.redirect_stdout(io.StringIO()):
+                    ret2 = float(op2.step())
+                if "p1" in rec2 and math.isfinite(ret2):
+                    Minv = torch.inverse(M) if dense else torch.diag(1.0 / M)
+                    want2 = 0.5 * float(rec2["p0"] @ Minv @ rec2["p0"]) - 0.5 * float(rec2["p1"] @ Minv @ rec2["p1"])
+                    ctx.add("restored_operator_steps")
+                    if abs(ret2 - want2) > 1e-9 * max(1.0, abs(want2)):
+                        ctx.violation(f"C16:operator:hastings:after-restore:{'dense' if dense else 'diag'}",
+                                      f"target {t[0]}: an operator restored from a saved state returned {ret2!r}; K0 - K1 under the restored mass matrix is {want2!r}",
+                                      {"target": t[0], "eps": eps, "L": L})
+            except Exception as e:
+                ctx.note(f"restored-operator step not checked for {t[0]}: {type(e).__name__}: {str(e)[:100]}")
 
 
 def run(ctx: Ctx):
